@@ -15,6 +15,16 @@ use std::sync::atomic::{AtomicUsize, Ordering};
 use std::sync::Arc;
 use std::task::{Context, Poll, Wake, Waker};
 
+/// On the sibling-carrying Subject source: an earlier conversion of the same Subject whose future the waiting side
+/// has already dropped (the loser of a select): its observer stays registered with the Subject.
+fn dropped_sibling(sk: u32) {
+  if sk == 2 {
+    if let Some(s) = cat::subject_of(0) {
+      drop(Box::pin(s.to_future()));
+    }
+  }
+}
+
 fn src_name(sk: u32) -> &'static str {
   match sk {
     0 => "a create handle",
@@ -42,7 +52,9 @@ fn c14_to_future(max_items: u32) {
   let cw = Arc::new(CountWaker(AtomicUsize::new(0)));
   let waker = Waker::from(cw.clone());
   let mut cx = Context::from_waker(&waker);
-  let mut fut = Box::pin(cat::hot_kind(0, sk).to_future());
+  let src = cat::hot_kind(0, sk);
+  dropped_sibling(sk);
+  let mut fut = Box::pin(src.to_future());
   cat::add_late_sibling(0);
   let mut result: Option<Result<Result<Val, Val>, ObservableError>> = None;
   let mut last_pending_wakes: Option<usize> = None; // wake count when the last poll returned Pending
@@ -108,7 +120,9 @@ fn c14_to_stream(max_items: u32) {
   let cw = Arc::new(CountWaker(AtomicUsize::new(0)));
   let waker = Waker::from(cw.clone());
   let mut cx = Context::from_waker(&waker);
-  let mut st = Box::pin(cat::hot_kind(0, sk).to_stream());
+  let src = cat::hot_kind(0, sk);
+  dropped_sibling(sk);
+  let mut st = Box::pin(src.to_stream());
   cat::add_late_sibling(0);
   let mut got: Vec<Ev> = vec![];
   let mut ended = false;
@@ -173,6 +187,93 @@ fn c14_to_stream(max_items: u32) {
     Err(why) => e::fail("to_stream/sequence", || format!("{} ; yielded [{}] expected [{}]", why, model::show_events(&got), model::show_events(&want))),
   }
   e::cover("c14-to_stream-path-complete");
+}
+
+// ---- to_stream with a waiting side that reacts at once: the waker polls the stream from inside wake(), i.e. while
+// the producer is still inside the call that sent the message (a second thread woken by the first of two sends)
+type BoxedStream = Pin<Box<dyn Stream<Item = Result<Val, Val>>>>;
+thread_local! {
+  static EAGER_STREAM: std::cell::RefCell<Option<BoxedStream>> = std::cell::RefCell::new(None);
+  static EAGER_GOT: std::cell::RefCell<Vec<Ev>> = std::cell::RefCell::new(vec![]);
+  static EAGER_ENDED: std::cell::Cell<bool> = std::cell::Cell::new(false);
+  static EAGER_PENDING: std::cell::Cell<bool> = std::cell::Cell::new(false);
+}
+struct EagerWaker;
+impl Wake for EagerWaker {
+  fn wake(self: Arc<Self>) {
+    eager_poll(self)
+  }
+  fn wake_by_ref(self: &Arc<Self>) {
+    eager_poll(self.clone())
+  }
+}
+fn eager_poll(w: Arc<EagerWaker>) {
+  if std::thread::panicking() {
+    return;
+  }
+  // a poll that is already running on this stack simply goes on (the wake-up came from inside it)
+  let st = EAGER_STREAM.with(|s| s.try_borrow_mut().ok().and_then(|mut s| s.take()));
+  let mut st = match st {
+    Some(s) => s,
+    None => return,
+  };
+  let waker = Waker::from(w);
+  let mut cx = Context::from_waker(&waker);
+  for _ in 0..8 {
+    if EAGER_ENDED.with(|e| e.get()) {
+      break;
+    }
+    match st.as_mut().poll_next(&mut cx) {
+      Poll::Ready(Some(Ok(v))) => EAGER_GOT.with(|g| g.borrow_mut().push(Ev::Next(v))),
+      Poll::Ready(Some(Err(x))) => EAGER_GOT.with(|g| g.borrow_mut().push(Ev::Err(x))),
+      Poll::Ready(None) => EAGER_ENDED.with(|e| e.set(true)),
+      Poll::Pending => {
+        EAGER_PENDING.with(|p| p.set(true));
+        break;
+      }
+    }
+  }
+  EAGER_STREAM.with(|s| *s.borrow_mut() = Some(st));
+}
+
+fn c14_to_stream_eager(max_items: u32) {
+  let script = draw_script(max_items, true);
+  let sk = [0, 2, 3][e::choose(3) as usize];
+  e::note(format!("to_stream over {} ; the waiting side polls from inside every wake-up ; input [{}]", src_name(sk), script.show()));
+  EAGER_GOT.with(|g| g.borrow_mut().clear());
+  EAGER_ENDED.with(|x| x.set(false));
+  let src = cat::hot_kind(0, sk);
+  let st: BoxedStream = Box::pin(src.to_stream());
+  EAGER_STREAM.with(|s| *s.borrow_mut() = Some(st));
+  cat::add_late_sibling(0);
+  let w = Arc::new(EagerWaker);
+  // the first poll registers the waker
+  eager_poll(w.clone());
+  for ev in script.events() {
+    e::note(world::show_ev(&ev));
+    cat::feed_hot(0, &ev);
+  }
+  let terminated = !matches!(script.term, Tm::None);
+  let ended = EAGER_ENDED.with(|x| x.get());
+  let got = EAGER_GOT.with(|g| g.borrow().clone());
+  // drop the stream inside the run
+  let st = EAGER_STREAM.with(|s| s.borrow_mut().take());
+  drop(st);
+  if terminated && !ended {
+    e::fail(&format!("to_stream/eager/never-ends-after-{}", if matches!(script.term, Tm::Complete) { "complete" } else { "error" }), || format!("every wake-up was answered by a poll at once, the source [{}] has terminated, yet the stream has not ended; yielded [{}]", script.show(), model::show_events(&got)));
+  }
+  if !terminated && ended {
+    e::fail("to_stream/eager/ended-before-terminal", || "stream ended although the source has not terminated".to_string());
+  }
+  let mut want = script.events();
+  if matches!(script.term, Tm::Complete) {
+    want.pop();
+  }
+  match model::compare_events(&got, &want) {
+    Ok(t) => e::check(t, "to_stream/eager/sequence", || format!("yielded [{}] expected [{}]", model::show_events(&got), model::show_events(&want))),
+    Err(why) => e::fail("to_stream/eager/sequence", || format!("{} ; yielded [{}] expected [{}]", why, model::show_events(&got), model::show_events(&want))),
+  }
+  e::cover("c14-to_stream-eager-path-complete");
 }
 
 /// complete_status: flags reflect the terminal exactly; the wait future becomes ready;
@@ -387,6 +488,7 @@ pub fn harnesses() -> Vec<HarnessDef> {
   }
   add("c14_to_future", vec!["C14"], "to_future: resolves as documented (Empty / item / MultipleValues / error), becomes ready once the source has terminated, no lost wake-up", b, Box::new(|t| c14_to_future(if t { 4 } else { 3 })));
   add("c14_to_stream", vec!["C14"], "to_stream: yields every item and the error in order, then ends; no lost wake-up", b, Box::new(|t| c14_to_stream(if t { 4 } else { 3 })));
+  add("c14_to_stream_eager", vec!["C14"], "to_stream whose waiting side polls from inside every wake-up (while the producer is still inside the call that sent the message): the error and the end still arrive, nothing panics", b, Box::new(|t| c14_to_stream_eager(if t { 4 } else { 3 })));
   add("c14_complete_status", vec!["C14"], "complete_status flags and the wait_for_end future; the producer's event interleaved at the waiter's hooked yield point (between flag check and waker registration)", b, Box::new(|t| c14_complete_status(if t { 4 } else { 3 }, false)));
   add("c14_complete_status_threads", vec!["C14", "C10"], "same over a thread-safe source", b, Box::new(|t| c14_complete_status(if t { 4 } else { 3 }, true)));
   v
